@@ -30,8 +30,8 @@ def build(mt):
     try:
         enc = wrec.Enc()
         T = mt['T2'] / 2.0 if mt['T2'] < 2 * wrec.INF else None
-        w = wrec.run_wave(cls, c, d, mt['lanes'], mt['caps'], mt['inw'], actrl=a, T=T, warmup=mt.get('warm'), strip=mt.get('strip', False))
-        rec.update(wrec.observe(w, c, mt['lanes'], enc))
+        w = wrec.run_wave(cls, c, d, mt['lanes'], mt['caps'], mt['inw'], actrl=a, T=T, warmup=mt.get('warm'), strip=mt.get('strip', False), reuse=mt.get('reuse', False))
+        rec.update(wrec.observe(w, c, mt['lanes'], enc, lines=not mt.get('reuse', False)))      # (with memory reuse only the ports are observable)
         big = wrec.run_wave(cls, c, d, mt['lanes'], 64, mt['inw'], T=T, strip=mt.get('strip', False))
         rec['big'] = dict(port=wrec.observe(big, c, mt['lanes'], enc, lines=False)['port'])
         if a is not None:
@@ -57,6 +57,11 @@ def make(ck, rnd, n):
         lanes = rnd.choice([1, 2, 4])
         d = gen.rand_delays(rnd, c, vals=(0, 1) if parity else (0, 1, 2, 3, 5))
         strip = rnd.random() < 0.3
+        reuse = (not parity) and rnd.random() < 0.15
+        if reuse:
+            strip = rnd.random() < 0.7
+            c = gen.gen_circuit(rnd, max_gates=ck.pick(16, 20), max_ff=2)
+            d = gen.rand_delays(rnd, c, vals=(0, 1, 2, 3, 5))
         if strip:
             for f in c.forks.values():
                 for l in f.ins:
@@ -67,7 +72,7 @@ def make(ck, rnd, n):
         percap = [rnd.choice([4, 8, 16]) for _ in range(len(c.lines) + 3)]
         if rnd.random() < 0.4:      # small capacities exactly on the lines whose INDEX is a port / state-element position
             percap = [4 if x < len(c.s_nodes) else 16 for x in range(len(c.lines) + 3)]
-        mt = dict(strip=strip, circuit=gen.circuit_state(c), lanes=lanes, delays=d.tolist(), caps=rnd.choice([4, 4, 8, percap]), inw=wrec.rand_inputs(rnd, c, lanes, multi=True, tmax=40 if parity else 12),
+        mt = dict(reuse=reuse, strip=strip, circuit=gen.circuit_state(c), lanes=lanes, delays=d.tolist(), caps=rnd.choice([4, 4, 8, percap]), inw=wrec.rand_inputs(rnd, c, lanes, multi=True, tmax=40 if parity else 12),
                   cls=rnd.choice(['WaveSim', 'WaveSimCuda']), T2=T2, actrl=actrl, warm=wrec.rand_inputs(rnd, c, lanes, multi=True, tmax=12) if rnd.random() < 0.4 else None)
         mt['desc'] = '%s caps=%s strip=%s T=%s actrl=%s' % (mt['cls'], mt['caps'] if isinstance(mt['caps'], int) else 'per-line', strip, 'TMAX' if T2 >= 2 * wrec.INF else T2 / 2, actrl is not None)
         recs.append(build(mt))
